@@ -14,10 +14,11 @@ cells), marker ops reached, and the whole-memory frame.
 `effect(S)` is the documentation line as an assignment on the model S (S.get/S.put: the data byte of the k-th cell
 from the pointed one; S.v: operand values; S.move: whole cells by which the pointer moves).
 """
+
 from __future__ import annotations
 
 import random
-from typing import Any, Callable, Dict, Iterable, List, Optional, Sequence, Tuple
+from typing import Callable, Dict, Iterable, List, Optional, Sequence, Tuple
 
 from bounded.stl import Var
 from bounded.stl_ptr import Case, Program, PtrHarness, Region, cycle_values, euler_pairs, far_address
@@ -149,8 +150,18 @@ def deref(
     if ns == 'hex' and not raw and cellbits == 8 and observe is None and not external and const is None and '\n' not in call:
         PARTS[name + (f'[{variant}]' if variant else '')] = (call, effect, operands, span, nth, doc)
     return Program(
-        name, call, vars_, cases, doc, decl=lambda w: _extra_init(ns)(w) + (f'kconst: ({const})&((1<<w)-1);0\n' if const is not None else '') + _buffers(ns)(w), regions=_regions, startup=_startup(ns),
-        widths=widths or ((64, 32) if ns == 'hex' else (64, 32, 16)), variant=variant, external=external, max_ops=max_ops,
+        name,
+        call,
+        vars_,
+        cases,
+        doc,
+        decl=lambda w: _extra_init(ns)(w) + (f'kconst: ({const})&((1<<w)-1);0\n' if const is not None else '') + _buffers(ns)(w),
+        regions=_regions,
+        startup=_startup(ns),
+        widths=widths or ((64, 32) if ns == 'hex' else (64, 32, 16)),
+        variant=variant,
+        external=external,
+        max_ops=max_ops,
         group=f'{ns} pointer macros on the pointed cell (all ordered pairs of {K_NEAR}+{K_FAR} cells of a near and a far buffer x cycled values)',
     )
 
@@ -174,44 +185,137 @@ def hex_deref_programs() -> List[Program]:
     def flip_bit(s: S) -> None:
         s.xor_word(0, s.off // s.w, 1 << (s.off % s.w))
 
-    A(deref('hex.ptr_flip', 'hex.ptr_flip p', 'like:  *ptr;   Flip the address the pointer points to. ptr holds an address.', flip_bit, raw=True,
-            offsets=lambda w: tuple(range(2 * w))))
-    A(deref('hex.ptr_flip_dbit', 'hex.ptr_flip_dbit p', 'like:  (*ptr)+dbit;   Flip the address dbit-ahead of what the pointer points to.', lambda s: s.xor(0, 1)))
+    A(
+        deref(
+            'hex.ptr_flip',
+            'hex.ptr_flip p',
+            'like:  *ptr;   Flip the address the pointer points to. ptr holds an address.',
+            flip_bit,
+            raw=True,
+            offsets=lambda w: tuple(range(2 * w)),
+        )
+    )
+    A(
+        deref(
+            'hex.ptr_flip_dbit',
+            'hex.ptr_flip_dbit p',
+            'like:  (*ptr)+dbit;   Flip the address dbit-ahead of what the pointer points to.',
+            lambda s: s.xor(0, 1),
+        )
+    )
     A(deref('hex.xor_hex_to_ptr', 'hex.xor_hex_to_ptr p, x', 'like:  hex.xor *ptr, hex', lambda s: s.xor(0, s.v['x']), {'x': H1i}))
     A(deref('hex.xor_byte_to_ptr', 'hex.xor_byte_to_ptr p, x', 'like:  hex.xor *ptr, hex[:2]', lambda s: s.xor(0, s.v['x']), {'x': H2i}))
     for n in (1, 3):
+
         def xn(s: S, n: int = n) -> None:
             for k in range(n):
                 s.xor(k, s.digit('x', k))
 
-        A(deref('hex.xor_hex_to_ptr n', f'hex.xor_hex_to_ptr {n}, p, x', 'like:  hex.xor *ptr[:n], hex[:n]', xn, {'x': _hexn(n, 'in')}, span=n, variant=f'n={n}'))
+        A(
+            deref(
+                'hex.xor_hex_to_ptr n',
+                f'hex.xor_hex_to_ptr {n}, p, x',
+                'like:  hex.xor *ptr[:n], hex[:n]',
+                xn,
+                {'x': _hexn(n, 'in')},
+                span=n,
+                variant=f'n={n}',
+            )
+        )
     for n in (1, 2):
+
         def xbn(s: S, n: int = n) -> None:
             for k in range(n):
                 s.xor(k, s.digit('x', k, 8))
 
-        A(deref('hex.xor_byte_to_ptr n', f'hex.xor_byte_to_ptr {n}, p, x', 'like:  hex.xor *ptr[:n], hex[:2n]', xbn, {'x': _hexn(2 * n, 'in')}, span=n, variant=f'n={n}'))
+        A(
+            deref(
+                'hex.xor_byte_to_ptr n',
+                f'hex.xor_byte_to_ptr {n}, p, x',
+                'like:  hex.xor *ptr[:n], hex[:2n]',
+                xbn,
+                {'x': _hexn(2 * n, 'in')},
+                span=n,
+                variant=f'n={n}',
+            )
+        )
 
     def x_inc(s: S) -> None:
         s.xor(0, s.v['x'])
         s.move = 1
 
-    A(deref('hex.pointers.xor_hex_to_ptr_and_inc', 'hex.pointers.xor_hex_to_ptr_and_inc p, x', 'like:  hex.xor *ptr, hex ;  ptr += dw', x_inc, {'x': H1i}))
-    A(deref('hex.pointers.xor_byte_to_ptr_and_inc', 'hex.pointers.xor_byte_to_ptr_and_inc p, x', 'like:  hex.xor *ptr, hex[:2] ;  ptr += dw', x_inc, {'x': H2i}))
-    A(deref('hex.pointers.xor_hex_to_flip_ptr', 'hex.pointers.set_flip_pointer p\n  hex.pointers.xor_hex_to_flip_ptr x',
-            'use after:  .pointers.set_flip_pointer ptr ;  does:  .xor *ptr, hex', lambda s: s.xor(0, s.v['x']), {'x': H1i}))
-    A(deref('hex.pointers.xor_byte_to_flip_ptr', 'hex.pointers.set_flip_pointer p\n  hex.pointers.xor_byte_to_flip_ptr x',
-            'use after:  .pointers.set_flip_pointer ptr ;  does:  .xor *ptr, hex[:2]', lambda s: s.xor(0, s.v['x']), {'x': H2i}))
+    A(
+        deref(
+            'hex.pointers.xor_hex_to_ptr_and_inc',
+            'hex.pointers.xor_hex_to_ptr_and_inc p, x',
+            'like:  hex.xor *ptr, hex ;  ptr += dw',
+            x_inc,
+            {'x': H1i},
+        )
+    )
+    A(
+        deref(
+            'hex.pointers.xor_byte_to_ptr_and_inc',
+            'hex.pointers.xor_byte_to_ptr_and_inc p, x',
+            'like:  hex.xor *ptr, hex[:2] ;  ptr += dw',
+            x_inc,
+            {'x': H2i},
+        )
+    )
+    A(
+        deref(
+            'hex.pointers.xor_hex_to_flip_ptr',
+            'hex.pointers.set_flip_pointer p\n  hex.pointers.xor_hex_to_flip_ptr x',
+            'use after:  .pointers.set_flip_pointer ptr ;  does:  .xor *ptr, hex',
+            lambda s: s.xor(0, s.v['x']),
+            {'x': H1i},
+        )
+    )
+    A(
+        deref(
+            'hex.pointers.xor_byte_to_flip_ptr',
+            'hex.pointers.set_flip_pointer p\n  hex.pointers.xor_byte_to_flip_ptr x',
+            'use after:  .pointers.set_flip_pointer ptr ;  does:  .xor *ptr, hex[:2]',
+            lambda s: s.xor(0, s.v['x']),
+            {'x': H2i},
+        )
+    )
     for sft in (0, 4):
-        A(deref('hex.pointers.xor_hex_to_flip_ptr bit_shift', f'hex.pointers.set_flip_pointer p\n  hex.pointers.xor_hex_to_flip_ptr x, {sft}',
+        A(
+            deref(
+                'hex.pointers.xor_hex_to_flip_ptr bit_shift',
+                f'hex.pointers.set_flip_pointer p\n  hex.pointers.xor_hex_to_flip_ptr x, {sft}',
                 'use after:  .pointers.set_flip_pointer ptr ;  does:  .xor *ptr, hex<<bit_shift   (bit_shift divisible by 4)',
-                lambda s, sft=sft: s.xor(0, s.v['x'] << sft), {'x': H1i}, variant=f'bit_shift={sft}'))
+                lambda s, sft=sft: s.xor(0, s.v['x'] << sft),
+                {'x': H1i},
+                variant=f'bit_shift={sft}',
+            )
+        )
     for ci, const in enumerate(('0x5A5A5A5A5A5A5A5A', '1', 'done', '(1<<w)-1', '0')):
-        A(deref('hex.ptr_wflip', f'hex.ptr_wflip p, {const}', 'like:  wflip *ptr, value   (ptr w-aligned)', lambda s: s.xor_word(0, s.off // s.w, s.const), raw=True,
-                offsets=lambda w: (0, w), variant=f'value={const}', const=const))
+        A(
+            deref(
+                'hex.ptr_wflip',
+                f'hex.ptr_wflip p, {const}',
+                'like:  wflip *ptr, value   (ptr w-aligned)',
+                lambda s: s.xor_word(0, s.off // s.w, s.const),
+                raw=True,
+                offsets=lambda w: (0, w),
+                variant=f'value={const}',
+                const=const,
+            )
+        )
         if ci < 3:
-            A(deref('hex.ptr_wflip_2nd_word', f'hex.ptr_wflip_2nd_word p, {const}', 'like:  wflip (*ptr)+w, value   (ptr dw-aligned)',
-                    lambda s: s.xor_word(0, 1, s.const), raw=True, variant=f'value={const}', const=const))
+            A(
+                deref(
+                    'hex.ptr_wflip_2nd_word',
+                    f'hex.ptr_wflip_2nd_word p, {const}',
+                    'like:  wflip (*ptr)+w, value   (ptr dw-aligned)',
+                    lambda s: s.xor_word(0, 1, s.const),
+                    raw=True,
+                    variant=f'value={const}',
+                    const=const,
+                )
+            )
 
     # ---- xor_from_pointer.fj
     def xh_from(s: S) -> None:
@@ -226,9 +330,16 @@ def hex_deref_programs() -> List[Program]:
     def rb_inner(s: S) -> None:
         s.v['hex.pointers.read_byte'] = s.get(0)
 
-    A(deref('hex.pointers.read_byte_from_inners_ptrs', 'hex.pointers.set_flip_and_jump_pointers p\n  hex.pointers.read_byte_from_inners_ptrs',
-            'use after:  hex.pointers.set_flip_and_jump_pointers ptr ;  does:  hex.pointers.read_byte[:2] = *ptr', rb_inner,
-            {'hex.pointers.read_byte': H2}, external=('hex.pointers.read_byte',)))
+    A(
+        deref(
+            'hex.pointers.read_byte_from_inners_ptrs',
+            'hex.pointers.set_flip_and_jump_pointers p\n  hex.pointers.read_byte_from_inners_ptrs',
+            'use after:  hex.pointers.set_flip_and_jump_pointers ptr ;  does:  hex.pointers.read_byte[:2] = *ptr',
+            rb_inner,
+            {'hex.pointers.read_byte': H2},
+            external=('hex.pointers.read_byte',),
+        )
+    )
 
     # ---- basic_pointers.fj: the setters (to_flip{_var} = ptr, to_jump{_var} = ptr)
     def obs(flip: bool, jump: bool) -> Callable[[PtrHarness, S, int], List[Tuple[int, int, int]]]:
@@ -254,13 +365,42 @@ def hex_deref_programs() -> List[Program]:
 
     PV = Var('hex', 0)  # n = 0: w/4 hexes
     anyoff = lambda w: tuple(range(0, 2 * w, 3))  # noqa: E731  "ptr holds an address": not only aligned ones
-    A(deref('hex.pointers.set_flip_pointer', 'hex.pointers.set_flip_pointer p', 'Sets both to_flip and to_flip_var to point to the given pointer (to_flip{_var} = ptr)',
-            setter(True, False), {'hex.pointers.to_flip_var': PV}, external=('hex.pointers.to_flip_var',), observe=obs(True, False), offsets=anyoff))
-    A(deref('hex.pointers.set_jump_pointer', 'hex.pointers.set_jump_pointer p', 'Sets both to_jump and to_jump_var to point to the given pointer (to_jump{_var} = ptr)',
-            setter(False, True), {'hex.pointers.to_jump_var': PV}, external=('hex.pointers.to_jump_var',), observe=obs(False, True), offsets=anyoff))
-    A(deref('hex.pointers.set_flip_and_jump_pointers', 'hex.pointers.set_flip_and_jump_pointers p', 'to_flip{_var} = ptr ; to_jump{_var} = ptr',
-            setter(True, True), {'hex.pointers.to_flip_var': PV, 'hex.pointers.to_jump_var': PV}, external=('hex.pointers.to_flip_var', 'hex.pointers.to_jump_var'),
-            observe=obs(True, True), offsets=anyoff))
+    A(
+        deref(
+            'hex.pointers.set_flip_pointer',
+            'hex.pointers.set_flip_pointer p',
+            'Sets both to_flip and to_flip_var to point to the given pointer (to_flip{_var} = ptr)',
+            setter(True, False),
+            {'hex.pointers.to_flip_var': PV},
+            external=('hex.pointers.to_flip_var',),
+            observe=obs(True, False),
+            offsets=anyoff,
+        )
+    )
+    A(
+        deref(
+            'hex.pointers.set_jump_pointer',
+            'hex.pointers.set_jump_pointer p',
+            'Sets both to_jump and to_jump_var to point to the given pointer (to_jump{_var} = ptr)',
+            setter(False, True),
+            {'hex.pointers.to_jump_var': PV},
+            external=('hex.pointers.to_jump_var',),
+            observe=obs(False, True),
+            offsets=anyoff,
+        )
+    )
+    A(
+        deref(
+            'hex.pointers.set_flip_and_jump_pointers',
+            'hex.pointers.set_flip_and_jump_pointers p',
+            'to_flip{_var} = ptr ; to_jump{_var} = ptr',
+            setter(True, True),
+            {'hex.pointers.to_flip_var': PV, 'hex.pointers.to_jump_var': PV},
+            external=('hex.pointers.to_flip_var', 'hex.pointers.to_jump_var'),
+            observe=obs(True, True),
+            offsets=anyoff,
+        )
+    )
 
     # ---- read_pointers.fj
     def rd_hex(s: S) -> None:
@@ -281,20 +421,48 @@ def hex_deref_programs() -> List[Program]:
     A(deref('hex.read_hex_and_inc', 'hex.read_hex_and_inc d, p', 'like:  dst = *ptr ;  ptr++', inc(rd_hex), {'d': H1}))
     A(deref('hex.read_byte_and_inc', 'hex.read_byte_and_inc d, p', 'like:  dst[:2] = *ptr ;  ptr++', inc(rd_byte), {'d': H2}))
     for n in (1, 3):
+
         def rdn(s: S, n: int = n) -> None:
             s.v['d'] = sum(s.get(k, 4) << (4 * k) for k in range(n))
 
         A(deref('hex.read_hex n', f'hex.read_hex {n}, d, p', 'like:  dst[:n] = *ptr[:n]', rdn, {'d': _hexn(n)}, span=n, variant=f'n={n}'))
     for n in (1, 2):
+
         def rdbn(s: S, n: int = n) -> None:
             s.v['d'] = sum(s.get(k) << (8 * k) for k in range(n))
 
-        A(deref('hex.read_byte n', f'hex.read_byte {n}, d, p', 'like:  dst[:2n] = *ptr[:n]', rdbn, {'d': _hexn(2 * n)}, span=n, variant=f'n={n}'))
+        A(
+            deref(
+                'hex.read_byte n',
+                f'hex.read_byte {n}, d, p',
+                'like:  dst[:2n] = *ptr[:n]',
+                rdbn,
+                {'d': _hexn(2 * n)},
+                span=n,
+                variant=f'n={n}',
+            )
+        )
     IDX = Var('hex', 0, 'in')
-    A(deref('hex.read_nth_hex', 'hex.read_nth_hex d, p, idx', 'dst = *(ptr + index*2w) ; index is a signed hex[:w/4] (may be negative). ptr,index preserved', rd_hex,
-            {'d': H1, 'idx': IDX}, nth=True))
-    A(deref('hex.read_nth_byte', 'hex.read_nth_byte d, p, idx', 'dst[:2] = *(ptr + index*2w) ; index signed (may be negative). ptr,index preserved', rd_byte,
-            {'d': H2, 'idx': IDX}, nth=True))
+    A(
+        deref(
+            'hex.read_nth_hex',
+            'hex.read_nth_hex d, p, idx',
+            'dst = *(ptr + index*2w) ; index is a signed hex[:w/4] (may be negative). ptr,index preserved',
+            rd_hex,
+            {'d': H1, 'idx': IDX},
+            nth=True,
+        )
+    )
+    A(
+        deref(
+            'hex.read_nth_byte',
+            'hex.read_nth_byte d, p, idx',
+            'dst[:2] = *(ptr + index*2w) ; index signed (may be negative). ptr,index preserved',
+            rd_byte,
+            {'d': H2, 'idx': IDX},
+            nth=True,
+        )
+    )
 
     # ---- write_pointers.fj
     def wr_hex(s: S) -> None:
@@ -309,21 +477,59 @@ def hex_deref_programs() -> List[Program]:
     A(deref('hex.write_hex_and_inc', 'hex.write_hex_and_inc p, x', 'like:  *ptr = src ;  ptr++', inc(wr_hex), {'x': H1i}))
     A(deref('hex.write_byte_and_inc', 'hex.write_byte_and_inc p, x', 'like:  *ptr = src[:2] ;  ptr++', inc(wr_byte), {'x': H2i}))
     for n in (1, 3):
+
         def wrn(s: S, n: int = n) -> None:
             for k in range(n):
                 s.put(k, s.digit('x', k), 4)
 
-        A(deref('hex.write_hex n', f'hex.write_hex {n}, p, x', 'like:  *ptr[:n] = src[:n]', wrn, {'x': _hexn(n, 'in')}, span=n, variant=f'n={n}'))
+        A(
+            deref(
+                'hex.write_hex n',
+                f'hex.write_hex {n}, p, x',
+                'like:  *ptr[:n] = src[:n]',
+                wrn,
+                {'x': _hexn(n, 'in')},
+                span=n,
+                variant=f'n={n}',
+            )
+        )
     for n in (1, 2):
+
         def wrbn(s: S, n: int = n) -> None:
             for k in range(n):
                 s.put(k, s.digit('x', k, 8))
 
-        A(deref('hex.write_byte n', f'hex.write_byte {n}, p, x', 'like:  *ptr[:n] = src[:2n]', wrbn, {'x': _hexn(2 * n, 'in')}, span=n, variant=f'n={n}'))
-    A(deref('hex.write_nth_hex', 'hex.write_nth_hex p, idx, x', '*(ptr + index*2w) = src ; index signed (may be negative). ptr,index,src preserved', wr_hex,
-            {'x': H1i, 'idx': IDX}, nth=True))
-    A(deref('hex.write_nth_byte', 'hex.write_nth_byte p, idx, x', '*(ptr + index*2w)[:2] = src[:2] ; index signed (may be negative). ptr,index,src preserved', wr_byte,
-            {'x': H2i, 'idx': IDX}, nth=True))
+        A(
+            deref(
+                'hex.write_byte n',
+                f'hex.write_byte {n}, p, x',
+                'like:  *ptr[:n] = src[:2n]',
+                wrbn,
+                {'x': _hexn(2 * n, 'in')},
+                span=n,
+                variant=f'n={n}',
+            )
+        )
+    A(
+        deref(
+            'hex.write_nth_hex',
+            'hex.write_nth_hex p, idx, x',
+            '*(ptr + index*2w) = src ; index signed (may be negative). ptr,index,src preserved',
+            wr_hex,
+            {'x': H1i, 'idx': IDX},
+            nth=True,
+        )
+    )
+    A(
+        deref(
+            'hex.write_nth_byte',
+            'hex.write_nth_byte p, idx, x',
+            '*(ptr + index*2w)[:2] = src[:2] ; index signed (may be negative). ptr,index,src preserved',
+            wr_byte,
+            {'x': H2i, 'idx': IDX},
+            nth=True,
+        )
+    )
     return ps
 
 
@@ -334,26 +540,75 @@ def bit_deref_programs() -> List[Program]:
     def flip_bit(s: S) -> None:
         s.xor_word(0, s.off // s.w, 1 << (s.off % s.w))
 
-    A(deref('bit.ptr_flip', 'bit.ptr_flip p', 'like:  *ptr;   Flip the address the pointer points to. ptr is a bit[:w] that holds an address.', flip_bit, ns='bit', raw=True,
-            offsets=lambda w: tuple(range(2 * w))))
-    A(deref('bit.ptr_flip_dbit', 'bit.ptr_flip_dbit p', 'like:  (*ptr)+dbit;   (ptr dw-aligned)', lambda s: s.xor(0, 1), ns='bit', cellbits=1))
+    A(
+        deref(
+            'bit.ptr_flip',
+            'bit.ptr_flip p',
+            'like:  *ptr;   Flip the address the pointer points to. ptr is a bit[:w] that holds an address.',
+            flip_bit,
+            ns='bit',
+            raw=True,
+            offsets=lambda w: tuple(range(2 * w)),
+        )
+    )
+    A(
+        deref(
+            'bit.ptr_flip_dbit',
+            'bit.ptr_flip_dbit p',
+            'like:  (*ptr)+dbit;   (ptr dw-aligned)',
+            lambda s: s.xor(0, 1),
+            ns='bit',
+            cellbits=1,
+        )
+    )
 
     def xor_to(s: S) -> None:
         s.xor(0, s.v['x'])
 
     A(deref('bit.xor_to_ptr', 'bit.xor_to_ptr p, x', 'like:  bit.xor *ptr, bit', xor_to, {'x': B1i}, ns='bit', cellbits=1))
     for ci, const in enumerate(('0x5A5A5A5A5A5A5A5A', 'done', '1')):
-        A(deref('bit.ptr_wflip', f'bit.ptr_wflip p, {const}', 'like:  wflip *ptr, value   (ptr w-aligned)',
-                lambda s: s.xor_word(0, s.off // s.w, s.const), ns='bit', raw=True, offsets=lambda w: (0, w), variant=f'value={const}', const=const))
+        A(
+            deref(
+                'bit.ptr_wflip',
+                f'bit.ptr_wflip p, {const}',
+                'like:  wflip *ptr, value   (ptr w-aligned)',
+                lambda s: s.xor_word(0, s.off // s.w, s.const),
+                ns='bit',
+                raw=True,
+                offsets=lambda w: (0, w),
+                variant=f'value={const}',
+                const=const,
+            )
+        )
         if ci < 2:
-            A(deref('bit.ptr_wflip_2nd_word', f'bit.ptr_wflip_2nd_word p, {const}', 'like:  wflip (*ptr)+w, value   (ptr dw-aligned)',
-                    lambda s: s.xor_word(0, 1, s.const), ns='bit', raw=True, variant=f'value={const}', const=const))
+            A(
+                deref(
+                    'bit.ptr_wflip_2nd_word',
+                    f'bit.ptr_wflip_2nd_word p, {const}',
+                    'like:  wflip (*ptr)+w, value   (ptr dw-aligned)',
+                    lambda s: s.xor_word(0, 1, s.const),
+                    ns='bit',
+                    raw=True,
+                    variant=f'value={const}',
+                    const=const,
+                )
+            )
 
     def xor_from(s: S) -> None:
         s.v['d'] ^= s.get(0, 1)
 
     A(deref('bit.xor_from_ptr', 'bit.xor_from_ptr d, p', 'like:  bit.xor dst, *ptr', xor_from, {'d': B1}, ns='bit', cellbits=1))
-    A(deref('bit.exact_xor_from_ptr', 'bit.exact_xor_from_ptr d+dbit, p', 'like:  bit.exact_xor dst, *ptr   (dst is a bit-address)', xor_from, {'d': B1}, ns='bit', cellbits=1))
+    A(
+        deref(
+            'bit.exact_xor_from_ptr',
+            'bit.exact_xor_from_ptr d+dbit, p',
+            'like:  bit.exact_xor dst, *ptr   (dst is a bit-address)',
+            xor_from,
+            {'d': B1},
+            ns='bit',
+            cellbits=1,
+        )
+    )
 
     def obs(which: str) -> Callable[[PtrHarness, S, int], List[Tuple[int, int, int]]]:
         def f(h: PtrHarness, s: S, p: int) -> List[Tuple[int, int, int]]:
@@ -363,12 +618,32 @@ def bit_deref_programs() -> List[Program]:
 
     PV = Var('bit', 0)
     anyoff = lambda w: tuple(range(0, 2 * w, 3))  # noqa: E731
-    A(deref('bit.pointers.set_flip_pointer', 'bit.pointers.set_flip_pointer p', 'Sets both to_flip and to_flip_var to point to the given pointer (to_flip{_var} = ptr)',
-            lambda s: s.v.__setitem__('bit.pointers.to_flip_var', s.v['p']), {'bit.pointers.to_flip_var': PV}, ns='bit', external=('bit.pointers.to_flip_var',),
-            observe=obs('to_flip'), offsets=anyoff))
-    A(deref('bit.pointers.set_jump_pointer', 'bit.pointers.set_jump_pointer p', 'Sets both to_jump and to_jump_var to point to the given pointer (to_jump{_var} = ptr)',
-            lambda s: s.v.__setitem__('bit.pointers.to_jump_var', s.v['p']), {'bit.pointers.to_jump_var': PV}, ns='bit', external=('bit.pointers.to_jump_var',),
-            observe=obs('to_jump'), offsets=anyoff))
+    A(
+        deref(
+            'bit.pointers.set_flip_pointer',
+            'bit.pointers.set_flip_pointer p',
+            'Sets both to_flip and to_flip_var to point to the given pointer (to_flip{_var} = ptr)',
+            lambda s: s.v.__setitem__('bit.pointers.to_flip_var', s.v['p']),
+            {'bit.pointers.to_flip_var': PV},
+            ns='bit',
+            external=('bit.pointers.to_flip_var',),
+            observe=obs('to_flip'),
+            offsets=anyoff,
+        )
+    )
+    A(
+        deref(
+            'bit.pointers.set_jump_pointer',
+            'bit.pointers.set_jump_pointer p',
+            'Sets both to_jump and to_jump_var to point to the given pointer (to_jump{_var} = ptr)',
+            lambda s: s.v.__setitem__('bit.pointers.to_jump_var', s.v['p']),
+            {'bit.pointers.to_jump_var': PV},
+            ns='bit',
+            external=('bit.pointers.to_jump_var',),
+            observe=obs('to_jump'),
+            offsets=anyoff,
+        )
+    )
     return ps
 
 
@@ -377,8 +652,10 @@ def bit_deref_programs() -> List[Program]:
 
 def jump_programs() -> List[Program]:
     out = []
-    for ns, doc in (('hex', 'like:  ;*ptr   Jump to the address the pointer points to. ptr is a hex[:w/4] that holds an address.'),
-                    ('bit', 'like:  ;*ptr   Jump to the address the pointer points to. ptr is a bit[:w] that holds an address.')):
+    for ns, doc in (
+        ('hex', 'like:  ;*ptr   Jump to the address the pointer points to. ptr is a hex[:w/4] that holds an address.'),
+        ('bit', 'like:  ;*ptr   Jump to the address the pointer points to. ptr is a bit[:w] that holds an address.'),
+    ):
         marks = [f'jt+{i}' for i in range(K_NEAR)] + [f'fjt+{i}' for i in range(K_FAR)]
 
         def cases(h: PtrHarness, rng: random.Random, tier: str, marks: List[str] = marks) -> Iterable[Case]:
@@ -386,11 +663,22 @@ def jump_programs() -> List[Program]:
             for ti in walk:
                 yield Case({'p': h.A(marks[ti])}, trace=(marks[ti],), info=dict(target=marks[ti], p=hex(h.A(marks[ti]))))
 
-        out.append(Program(
-            f'{ns}.ptr_jump', f'{ns}.ptr_jump p', lambda w, ns=ns: {'p': _ptr(ns, w)}, cases, doc,
-            decl=lambda w, ns=ns: _extra_init(ns)(w) + f'jt: rep({K_NEAR}, i) stl.fj 0, done\nsegment {far_address(w)}\nfjt: rep({K_FAR}, i) stl.fj 0, done',
-            markers=lambda w, marks=marks: marks, startup=_startup(ns), widths=(64, 32) if ns == 'hex' else (64, 32, 16), max_ops=200_000,
-            group='ptr_jump lands exactly on the pointed op (a table of marker ops near and far; all ordered pairs of targets)'))
+        out.append(
+            Program(
+                f'{ns}.ptr_jump',
+                f'{ns}.ptr_jump p',
+                lambda w, ns=ns: {'p': _ptr(ns, w)},
+                cases,
+                doc,
+                decl=lambda w, ns=ns: _extra_init(ns)(w)
+                + f'jt: rep({K_NEAR}, i) stl.fj 0, done\nsegment {far_address(w)}\nfjt: rep({K_FAR}, i) stl.fj 0, done',
+                markers=lambda w, marks=marks: marks,
+                startup=_startup(ns),
+                widths=(64, 32) if ns == 'hex' else (64, 32, 16),
+                max_ops=200_000,
+                group='ptr_jump lands exactly on the pointed op (a table of marker ops near and far; all ordered pairs of targets)',
+            )
+        )
     return out
 
 
@@ -400,7 +688,20 @@ def jump_programs() -> List[Program]:
 def _pointer_values(h: PtrHarness, rng: random.Random, count: int) -> List[int]:
     w, dw = h.w, 2 * h.w
     top = 1 << w
-    vals = [0, dw, top - dw, top - 2 * dw, top >> 1, (top >> 1) - dw, 15 * dw, 16 * dw, 255 * dw, 256 * dw, far_address(w), far_address(w) + 3 * dw]
+    vals = [
+        0,
+        dw,
+        top - dw,
+        top - 2 * dw,
+        top >> 1,
+        (top >> 1) - dw,
+        15 * dw,
+        16 * dw,
+        255 * dw,
+        256 * dw,
+        far_address(w),
+        far_address(w) + 3 * dw,
+    ]
     vals += [h.A('done'), h.A('again')]
     vals += [((1 << k) - 1) * dw % top for k in range(1, w, 5)]  # carries running through k bits
     while len(vals) < count:
@@ -417,30 +718,59 @@ def arith_programs() -> List[Program]:
     def mk(name: str, call: str, doc: str, delta_cells: int, ns: str = 'hex', variant: str = '', candidate: str = '') -> None:
         def cases(h: PtrHarness, rng: random.Random, tier: str) -> Iterable[Case]:
             prev = False
-            for p in _pointer_values(h, rng, 150 if tier != 'thorough' else 1200):
+            for p in _pointer_values(h, rng, 150 if tier != 'thorough' else 800):
                 wraps = not (0 <= p + delta_cells * 2 * h.w < (1 << h.w))
                 # stepping over the end of the address space: bit.inc leaves its private carry cell set (it is re-initialised
                 # on entry by `.one carry`); changes confined to the code of the macro instance are tolerated for these operands
                 # (and for the execution that follows, which clears the cell again) only
-                yield Case({'p': p}, {'p': (p + delta_cells * 2 * h.w) % (1 << h.w)}, info=dict(p=hex(p)), soft_frame=(ns == 'bit' and (wraps or prev)))
+                yield Case(
+                    {'p': p},
+                    {'p': (p + delta_cells * 2 * h.w) % (1 << h.w)},
+                    info=dict(p=hex(p)),
+                    soft_frame=(ns == 'bit' and (wraps or prev)),
+                )
                 prev = wraps
 
-        out.append(Program(name, call, lambda w: {'p': Var('hex', w // 4) if ns == 'hex' else Var('bit', w)}, cases, doc, decl=_extra_init(ns), startup=_startup(ns),
-                           widths=(64, 32) if ns == 'hex' else (64, 32, 16), variant=variant, max_ops=100_000, group=grp, candidate=candidate))
+        out.append(
+            Program(
+                name,
+                call,
+                lambda w: {'p': Var('hex', w // 4) if ns == 'hex' else Var('bit', w)},
+                cases,
+                doc,
+                decl=_extra_init(ns),
+                startup=_startup(ns),
+                widths=(64, 32) if ns == 'hex' else (64, 32, 16),
+                variant=variant,
+                max_ops=100_000,
+                group=grp,
+                candidate=candidate,
+            )
+        )
 
     mk('hex.ptr_inc', 'hex.ptr_inc p', 'ptr[:w/4] += 2w', 1)
     mk('hex.ptr_dec', 'hex.ptr_dec p', 'ptr[:w/4] -= 2w', -1)
     for c in (0, 1, 2, 7, 0x35, 0x1234):
         mk('hex.ptr_add', f'hex.ptr_add p, {c}', 'ptr[:w/4] += value * 2w    (advance ptr by value)', c, variant=f'value={c}')
-        mk('hex.ptr_sub', f'hex.ptr_sub p, {c}', 'ptr[:w/4] -= value * 2w    (retreat ptr by value)', -c, variant=f'value={c}',
-           candidate='' if c else 'hex.ptr_sub ptr, 0 does not assemble (hex.sub_constant with constant 0: "negative shift count"), hex.ptr_add ptr, 0 does')
+        mk(
+            'hex.ptr_sub',
+            f'hex.ptr_sub p, {c}',
+            'ptr[:w/4] -= value * 2w    (retreat ptr by value)',
+            -c,
+            variant=f'value={c}',
+            candidate=(
+                ''
+                if c
+                else 'hex.ptr_sub ptr, 0 does not assemble (hex.sub_constant with constant 0: "negative shift count"), hex.ptr_add ptr, 0 does'
+            ),
+        )
     mk('bit.ptr_inc', 'bit.ptr_inc p', '(ptr += 2w: "inc" of the property statement; the macro documents only its complexity)', 1, ns='bit')
     mk('bit.ptr_dec', 'bit.ptr_dec p', 'ptr[:n] -= 2w', -1, ns='bit')
 
     def idx_cases(h: PtrHarness, rng: random.Random, tier: str) -> Iterable[Case]:
         w = h.w
         top = 1 << w
-        n = 200 if tier != 'thorough' else 2000
+        n = 200 if tier != 'thorough' else 1500
         ps = _pointer_values(h, rng, n)
         idxs = list(range(-24, 25)) + [(1 << (w - 9)) - 1, -(1 << (w - 9)), 1 << (w - 10), -(1 << (w - 10))]
         while len(idxs) < n:
@@ -453,11 +783,23 @@ def arith_programs() -> List[Program]:
                 idxs.append(rng.getrandbits(w))  # the formula mod 2^w
         rng.shuffle(idxs)
         for p, ix in zip(ps, idxs):
-            yield Case({'p': p, 'idx': ix % top, 'd': rng.getrandbits(w)}, {'d': (p + ix * 2 * w) % top}, info=dict(p=hex(p), idx=ix if abs(ix) < top // 2 else hex(ix)))
+            yield Case(
+                {'p': p, 'idx': ix % top, 'd': rng.getrandbits(w)},
+                {'d': (p + ix * 2 * w) % top},
+                info=dict(p=hex(p), idx=ix if abs(ix) < top // 2 else hex(ix)),
+            )
 
-    out.append(Program('hex.ptr_index', 'hex.ptr_index d, p, idx', lambda w: {'d': Var('hex', w // 4, 'out'), 'p': Var('hex', w // 4, 'in'), 'idx': Var('hex', w // 4, 'in')}, idx_cases,
-                       'dst[:w/4] = ptr + index*2w  (the address of the index-th dw-aligned op past *ptr); index is a signed hex[:w/4]. Works for negative index too.',
-                       max_ops=100_000, group=grp))
+    out.append(
+        Program(
+            'hex.ptr_index',
+            'hex.ptr_index d, p, idx',
+            lambda w: {'d': Var('hex', w // 4, 'out'), 'p': Var('hex', w // 4, 'in'), 'idx': Var('hex', w // 4, 'in')},
+            idx_cases,
+            'dst[:w/4] = ptr + index*2w  (the address of the index-th dw-aligned op past *ptr); index is a signed hex[:w/4]. Works for negative index too.',
+            max_ops=100_000,
+            group=grp,
+        )
+    )
     return out
 
 
@@ -482,8 +824,10 @@ class T:
 
 
 def _stack_decl(w: int) -> str:
-    return (f'jt: rep({K_NEAR}, i) stl.fj 0, done\nfm: stl.return\nfg: stl.fret rr\nrr: 0;0\nkret: 0;0\n'
-            f'segment {far_address(w)}\nfjt: rep({K_FAR}, i) stl.fj 0, done')
+    return (
+        f'jt: rep({K_NEAR}, i) stl.fj 0, done\nfm: stl.return\nfg: stl.fret rr\nrr: 0;0\nkret: 0;0\n'
+        f'segment {far_address(w)}\nfjt: rep({K_FAR}, i) stl.fj 0, done'
+    )
 
 
 _STACK_MARKS = [f'jt+{i}' for i in range(K_NEAR)] + [f'fjt+{i}' for i in range(K_FAR)] + ['fm', 'fg']
@@ -493,8 +837,19 @@ def stack_programs() -> List[Program]:
     out: List[Program] = []
     grp = f'stack macros, one application at every depth of a {STACK}-cell stack whose cells hold stale bytes'
 
-    def mk(name: str, call: str, doc: str, effect: Callable[[T], None], operands: Optional[Dict[str, Var]] = None, *, lo: int = 0, hi: int = STACK - 1,
-           prepare: Optional[Callable[[T, random.Random], None]] = None, variant: str = '', regions_extra: Optional[Dict[str, Region]] = None) -> None:
+    def mk(
+        name: str,
+        call: str,
+        doc: str,
+        effect: Callable[[T], None],
+        operands: Optional[Dict[str, Var]] = None,
+        *,
+        lo: int = 0,
+        hi: int = STACK - 1,
+        prepare: Optional[Callable[[T, random.Random], None]] = None,
+        variant: str = '',
+        regions_extra: Optional[Dict[str, Region]] = None,
+    ) -> None:
         operands = operands or {}
 
         def vars_(w: int) -> Dict[str, Var]:
@@ -519,7 +874,7 @@ def stack_programs() -> List[Program]:
                 vals = {nm: c[t] for nm, c in cyc.items()}
                 vals['hex.pointers.sp'] = base + d * 2 * w
                 regs = {'stk': cells}
-                for rn in (regions_extra or {}):
+                for rn in regions_extra or {}:
                     regs[rn] = [[0, 0]]
                 st0 = T(h, d, cells, vals)
                 st0.regs = regs
@@ -535,8 +890,23 @@ def stack_programs() -> List[Program]:
                 info = dict(depth=d, stack_before=[f'{c[1]:#x}' for c in cells[: max(d, st.d) + 1]], **{k: hex(x) for k, x in vals.items()})
                 yield Case(vals, want, regs, want_regs, trace=st.trace, info=info)
 
-        out.append(Program(name, call, vars_, cases, doc, decl=_stack_decl, regions=regions, markers=lambda w: _STACK_MARKS, startup=f'stl.startup_and_init_all {STACK}',
-                           external=('hex.pointers.sp',), variant=variant, max_ops=400_000, group=grp))
+        out.append(
+            Program(
+                name,
+                call,
+                vars_,
+                cases,
+                doc,
+                decl=_stack_decl,
+                regions=regions,
+                markers=lambda w: _STACK_MARKS,
+                startup=f'stl.startup_and_init_all {STACK}',
+                external=('hex.pointers.sp',),
+                variant=variant,
+                max_ops=400_000,
+                group=grp,
+            )
+        )
 
     def move(k: int) -> Callable[[T], None]:
         def f(t: T) -> None:
@@ -561,6 +931,7 @@ def stack_programs() -> List[Program]:
     mk('hex.push_hex', 'hex.push_hex x', 'Like:  stack[++sp] = hex', push_hex, {'x': H1i})
     mk('hex.push_byte', 'hex.push_byte x', 'Like:  stack[++sp] = byte[:2]', push_byte, {'x': H2i})
     for n in (1, 2, 3, 5):
+
         def push_n(t: T, n: int = n) -> None:
             for i in range(n // 2):
                 t.d += 1
@@ -569,8 +940,15 @@ def stack_programs() -> List[Program]:
                 t.d += 1
                 t.put((t.v['x'] >> (4 * (n - 1))) & 0xF, 4)
 
-        mk('hex.push', f'hex.push {n}, x', 'Like:  stack[sp+1:][:M] = hex[:n];  sp += M.   M is (n+1)/2 (pushes the parameter as bytes)', push_n, {'x': _hexn(n, 'in')},
-           hi=STACK - (n + 1) // 2, variant=f'n={n}')
+        mk(
+            'hex.push',
+            f'hex.push {n}, x',
+            'Like:  stack[sp+1:][:M] = hex[:n];  sp += M.   M is (n+1)/2 (pushes the parameter as bytes)',
+            push_n,
+            {'x': _hexn(n, 'in')},
+            hi=STACK - (n + 1) // 2,
+            variant=f'n={n}',
+        )
 
     def pop_hex(t: T) -> None:
         t.v['y'] = t.top(4)
@@ -580,9 +958,18 @@ def stack_programs() -> List[Program]:
         t.v['y'] = t.top(8)
         t.d -= 1
 
-    mk('hex.pop_hex', 'hex.pop_hex y', 'Like:  hex = stack[sp--]   (only the least-significant-hex of the cell)', pop_hex, {'y': Var('hex', 1, 'out')}, lo=1, hi=STACK)
+    mk(
+        'hex.pop_hex',
+        'hex.pop_hex y',
+        'Like:  hex = stack[sp--]   (only the least-significant-hex of the cell)',
+        pop_hex,
+        {'y': Var('hex', 1, 'out')},
+        lo=1,
+        hi=STACK,
+    )
     mk('hex.pop_byte', 'hex.pop_byte y', 'Like:  byte[:2] = stack[sp--]', pop_byte, {'y': Var('hex', 2, 'out')}, lo=1, hi=STACK)
     for n in (1, 2, 3, 5):
+
         def pop_n(t: T, n: int = n) -> None:
             y = 0
             if n % 2:
@@ -593,10 +980,19 @@ def stack_programs() -> List[Program]:
                 t.d -= 1
             t.v['y'] = y
 
-        mk('hex.pop', f'hex.pop {n}, y', 'Like:  sp -= M ;  hex[:n] = stack[sp+1:][:M].   M is (n+1)/2 (pops the parameters as bytes)', pop_n, {'y': _hexn(n, 'out')},
-           lo=(n + 1) // 2, hi=STACK, variant=f'n={n}')
+        mk(
+            'hex.pop',
+            f'hex.pop {n}, y',
+            'Like:  sp -= M ;  hex[:n] = stack[sp+1:][:M].   M is (n+1)/2 (pops the parameters as bytes)',
+            pop_n,
+            {'y': _hexn(n, 'out')},
+            lo=(n + 1) // 2,
+            hi=STACK,
+            variant=f'n={n}',
+        )
 
     for lab, py in (('done', 'done'), ('jt+2*dw', 'jt+2'), ('fjt+dw', 'fjt+1')):
+
         def push_ret(t: T, py: str = py) -> None:
             t.d += 1
             t.cells[t.d - 1][1] = t.h.A(py)
@@ -608,9 +1004,23 @@ def stack_programs() -> List[Program]:
             t.cells[t.d - 1][1] = 0
             t.d -= 1
 
-        mk('hex.push_ret_address', f'hex.push_ret_address {lab}', 'Like:  stack[++sp] = return_address', push_ret, variant=f'return_address={lab}')
-        mk('hex.pop_ret_address', f'hex.pop_ret_address {lab}', 'Like:  stack[sp--] = 0   (assumes the cell has the value of the return_address)', pop_ret, lo=1, hi=STACK,
-           prepare=prep_pop_ret, variant=f'return_address={lab}')
+        mk(
+            'hex.push_ret_address',
+            f'hex.push_ret_address {lab}',
+            'Like:  stack[++sp] = return_address',
+            push_ret,
+            variant=f'return_address={lab}',
+        )
+        mk(
+            'hex.pop_ret_address',
+            f'hex.pop_ret_address {lab}',
+            'Like:  stack[sp--] = 0   (assumes the cell has the value of the return_address)',
+            pop_ret,
+            lo=1,
+            hi=STACK,
+            prepare=prep_pop_ret,
+            variant=f'return_address={lab}',
+        )
 
     def get_sp(t: T) -> None:
         t.v['g'] = t.v['hex.pointers.sp']
@@ -622,7 +1032,15 @@ def stack_programs() -> List[Program]:
         t.cells[t.d - 1][1] = t.h.A(mk_)
         t.trace = (mk_,)
 
-    mk('stl.return', 'stl.return', 'Returns to the calling function (gets the return-address from the top of the stack)', lambda t: None, lo=1, hi=STACK, prepare=prep_return)
+    mk(
+        'stl.return',
+        'stl.return',
+        'Returns to the calling function (gets the return-address from the top of the stack)',
+        lambda t: None,
+        lo=1,
+        hi=STACK,
+        prepare=prep_return,
+    )
 
     def call(npop: int) -> Callable[[T], None]:
         def f(t: T) -> None:
@@ -632,22 +1050,47 @@ def stack_programs() -> List[Program]:
 
         return f
 
-    mk('stl.call', 'stl.call fm', 'Saves the return address to the stack and jumps to the given "address". When returned, it removes the return-address from the stack.', call(0))
+    mk(
+        'stl.call',
+        'stl.call fm',
+        'Saves the return address to the stack and jumps to the given "address". When returned, it removes the return-address from the stack.',
+        call(0),
+    )
     for n in (1, 3):
-        mk('stl.call params', f'stl.call fm, {n}', '... When returned, it removes the return-address from the stack, and pops "params_stack_length" cells from the stack.',
-           call(n), lo=n, variant=f'params_stack_length={n}')
+        mk(
+            'stl.call params',
+            f'stl.call fm, {n}',
+            '... When returned, it removes the return-address from the stack, and pops "params_stack_length" cells from the stack.',
+            call(n),
+            lo=n,
+            variant=f'params_stack_length={n}',
+        )
 
     def fcall(t: T) -> None:
         t.trace = ('fg',)
 
-    mk('stl.fcall', 'stl.fcall fg, rr', 'Jumps to label, and saves the return address in the given "ret_reg" variable.  [fg: stl.fret rr]', fcall, hi=2)
+    mk(
+        'stl.fcall',
+        'stl.fcall fg, rr',
+        'Jumps to label, and saves the return address in the given "ret_reg" variable.  [fg: stl.fret rr]',
+        fcall,
+        hi=2,
+    )
 
     def prep_fret(t: T, rng: random.Random) -> None:
         mk_ = rng.choice(_STACK_MARKS[:-2])
         t.regs['kret'][0][1] = t.h.A(mk_)
         t.trace = (mk_,)
 
-    mk('stl.fret', 'stl.fret kret', 'Return into the address written in the "ret_reg" variable.', lambda t: None, hi=2, prepare=prep_fret, regions_extra={'kret': Region('kret', 1)})
+    mk(
+        'stl.fret',
+        'stl.fret kret',
+        'Return into the address written in the "ret_reg" variable.',
+        lambda t: None,
+        hi=2,
+        prepare=prep_fret,
+        regions_extra={'kret': Region('kret', 1)},
+    )
     return out
 
 
@@ -720,7 +1163,9 @@ class _Gen:
             elif r < 0.66:
                 n = rng.randrange(1, 7)
                 m = (n + 1) // 2
-                items += [('push', n, self.var('x', n, 'in'))] + inner() + ([('sp_sub', m)] if rng.random() < 0.6 or m > 1 else [('sp_dec',)])
+                items += (
+                    [('push', n, self.var('x', n, 'in'))] + inner() + ([('sp_sub', m)] if rng.random() < 0.6 or m > 1 else [('sp_dec',)])
+                )
             elif r < 0.72:
                 items += [('push_hex', self.var('x', 1, 'in'))] + inner() + [('sp_dec',)]
             elif r < 0.78:
@@ -852,12 +1297,12 @@ SEQ_STACK = 80
 def sequence_programs(tier: str, seed: int) -> List[Program]:
     """random programs; the family (number, size) depends on the tier, the content on the seed"""
     out: List[Program] = []
-    n_seq, n_call = (8, 12) if tier != 'thorough' else (32, 48)
+    n_seq, n_call = (8, 12) if tier != 'thorough' else (20, 30)
     for idx in range(n_seq + n_call):
         with_calls = idx >= n_seq
         rng = random.Random(f'C08-seq-{seed}-{idx}')
         ncall = rng.randrange(2, 6) if with_calls else 0
-        lo, hi = (7, 13) if tier != 'thorough' else (10, 24)
+        lo, hi = (7, 13) if tier != 'thorough' else (8, 18)
         g = _Gen(rng, ncall, budget=rng.randrange(lo, hi), p_call=0.4 if with_calls else 0.0)
         # bodies from the last callable backwards so that the budget is shared and every callable exists
         main = g.seq(0, -1, 6 if with_calls else 12)
@@ -887,7 +1332,7 @@ def sequence_programs(tier: str, seed: int) -> List[Program]:
         def cases(h: PtrHarness, rng2: random.Random, tier: str, g: _Gen = g, main: List[tuple] = main) -> Iterable[Case]:
             w = h.w
             sp0 = h.A('hex.pointers.stack')
-            for t in range(6 if tier != 'thorough' else 16):
+            for t in range(6 if tier != 'thorough' else 10):
                 vals = {}
                 for nm, v in h.vars.items():
                     if nm == 'hex.pointers.sp':
@@ -898,17 +1343,36 @@ def sequence_programs(tier: str, seed: int) -> List[Program]:
                 m.run(main)
                 assert not m.stack and m.max_depth < SEQ_STACK - 2
                 want = {nm: x for nm, x in m.want.items()}
-                want['hex.pointers.sp'] = sp0  # "the stack pointer restored" (never poked: the first execution starts from stack_init's value)
-                yield Case(vals, want, output=bytes(m.out), info=dict(execution=t, **{k: hex(x) for k, x in vals.items() if h.vars[k].role == 'in'}))
+                want['hex.pointers.sp'] = (
+                    sp0  # "the stack pointer restored" (never poked: the first execution starts from stack_init's value)
+                )
+                yield Case(
+                    vals,
+                    want,
+                    output=bytes(m.out),
+                    info=dict(execution=t, **{k: hex(x) for k, x in vals.items() if h.vars[k].role == 'in'}),
+                )
 
-        out.append(Program(
-            'call/return + fcall/fret nesting' if with_calls else 'balanced push/pop sequence', '\n'.join(x[2:] if i == 0 else x for i, x in enumerate(lines)) or 'stl.skip', mkvars, cases,
-            'LIFO: pops return the pushed values in reverse order, sp restored; stl.return / stl.fret resume right after the matching call',
-            decl='\n'.join(decl) + '\n' + 'segment {far}\nfarlabel: ;done', startup=f'stl.startup_and_init_all {SEQ_STACK}', external=('hex.pointers.sp',),
-            scratch_stack=SEQ_STACK, variant=f'program {idx}', max_ops=3_000_000,
-            group=('random nestings of stl.call/stl.return and stl.fcall/stl.fret with push/pop activity (marker byte on entry and exit of every function)' if with_calls
-                   else 'random balanced sequences of push/pop of hexes, bytes, vectors, return addresses and sp arithmetic'),
-        ))
+        out.append(
+            Program(
+                'call/return + fcall/fret nesting' if with_calls else 'balanced push/pop sequence',
+                '\n'.join(x[2:] if i == 0 else x for i, x in enumerate(lines)) or 'stl.skip',
+                mkvars,
+                cases,
+                'LIFO: pops return the pushed values in reverse order, sp restored; stl.return / stl.fret resume right after the matching call',
+                decl='\n'.join(decl) + '\n' + 'segment {far}\nfarlabel: ;done',
+                startup=f'stl.startup_and_init_all {SEQ_STACK}',
+                external=('hex.pointers.sp',),
+                scratch_stack=SEQ_STACK,
+                variant=f'program {idx}',
+                max_ops=3_000_000,
+                group=(
+                    'random nestings of stl.call/stl.return and stl.fcall/stl.fret with push/pop activity (marker byte on entry and exit of every function)'
+                    if with_calls
+                    else 'random balanced sequences of push/pop of hexes, bytes, vectors, return addresses and sp arithmetic'
+                ),
+            )
+        )
         p = out[-1]
         text = p.decl
         p.decl = lambda w, text=text: text.replace('{far}', str(far_address(w)))
@@ -925,7 +1389,7 @@ def mixed_programs(tier: str, seed: int) -> List[Program]:
         hex_deref_programs()
     keys = sorted(PARTS)
     out: List[Program] = []
-    for idx in range(16 if tier != 'thorough' else 64):
+    for idx in range(16 if tier != 'thorough' else 40):
         rng = random.Random(f'C08-mixed-{seed}-{idx}')
         parts = [rng.choice(keys) for _ in range(rng.randrange(3, 6))]
         ptrs = [rng.choice(('pa', 'pb')) for _ in parts]
@@ -950,7 +1414,7 @@ def mixed_programs(tier: str, seed: int) -> List[Program]:
             rnames = list(h.regions)
             done_ = 0
             tries = 0
-            total = 40 if tier != 'thorough' else 120
+            total = 40 if tier != 'thorough' else 80
             while done_ < total and tries < total * 50:
                 tries += 1
                 pos = {pn: [rng2.choice(rnames), 0] for pn in ('pa', 'pb')}
@@ -991,16 +1455,33 @@ def mixed_programs(tier: str, seed: int) -> List[Program]:
                 want = {nm: x for nm, x in V.items() if x != vals[nm]}
                 yield Case(vals, want, regs, want_regs, info=dict(targets=steps, **{k: hex(x) for k, x in vals.items()}))
 
-        out.append(Program('sequence of pointer macros', '\n  '.join(lines), mkvars, cases, 'the composition of the documented effects of: ' + ' ; '.join(parts),
-                           decl=_buffers('hex'), regions=_regions, variant=f'program {idx}', max_ops=600_000,
-                           group='random sequences of 3-5 hex pointer macros on two shared pointers and shared buffers (one assembled program each)'))
+        out.append(
+            Program(
+                'sequence of pointer macros',
+                '\n  '.join(lines),
+                mkvars,
+                cases,
+                'the composition of the documented effects of: ' + ' ; '.join(parts),
+                decl=_buffers('hex'),
+                regions=_regions,
+                variant=f'program {idx}',
+                max_ops=600_000,
+                group='random sequences of 3-5 hex pointer macros on two shared pointers and shared buffers (one assembled program each)',
+            )
+        )
     return out
 
 
 NOT_COVERED: Dict[str, str] = {
-    'stl.ptr_init / hex.pointers.ptr_init / bit.pointers.ptr_init': 'declarations of the global registers and of the read-byte table (no effect of their own); every program runs on them, '
-    'the setters\' contracts state to_flip{_var} / to_jump{_var}, read_byte_from_inners_ptrs states read_byte',
-    'stl.stack_init / hex.pointers.stack_init': 'declaration; its documented outputs are checked through the stack programs: sp starts at `stack` (the random programs never poke sp), '
-    'capacity n (the single applications push into the n-th cell of a 12-cell stack)',
-    'hex.pointers.advance_by_one_and_flip__ptr_wflip / bit.pointers.advance_by_one_and_flip__ptr_wflip': 'helper of ptr_wflip, only meaningful inside its rep(w) loop; covered through ptr_wflip / ptr_wflip_2nd_word',
+    'stl.ptr_init / hex.pointers.ptr_init / bit.pointers.ptr_init': (
+        'declarations of the global registers and of the read-byte table (no effect of their own); every program runs on them, '
+        'the setters\' contracts state to_flip{_var} / to_jump{_var}, read_byte_from_inners_ptrs states read_byte'
+    ),
+    'stl.stack_init / hex.pointers.stack_init': (
+        'declaration; its documented outputs are checked through the stack programs: sp starts at `stack` '
+        '(the random programs never poke sp), capacity n (the single applications push into the n-th cell of a 12-cell stack)'
+    ),
+    'hex.pointers.advance_by_one_and_flip__ptr_wflip / bit.pointers.advance_by_one_and_flip__ptr_wflip': (
+        'helper of ptr_wflip, only meaningful inside its rep(w) loop; covered through ptr_wflip / ptr_wflip_2nd_word'
+    ),
 }
